@@ -706,6 +706,7 @@ Theorem temp_file_fresh_shaped ostmp s g dir pattern s' g' name h :
   shaped (eff_dir ostmp dir) (fst (temp_prefix_suffix pattern)) (snd (temp_prefix_suffix pattern)) name.
 Proof.
   intros Hg Hc H. unfold temp_file in H. fold (eff_dir ostmp dir) in H.
+  destruct (temp_refused pattern); [discriminate|].
   destruct (temp_prefix_suffix pattern) as [prefix suffix]. cbn [fst snd] in *.
   assert (Hnil : forall nm hh, TempNil <> TempOk nm hh) by (intros; discriminate).
   destruct (temp_loop_fresh step view is_create good cand contract_ok contract_err _ _ _ _ _ _ _ _ _ _ _ _ _
@@ -721,6 +722,7 @@ Theorem temp_dir_fresh_shaped ostmp s g dir prefix s' g' name h :
   shaped (eff_dir ostmp dir) prefix [] name.
 Proof.
   intros Hg Hc H. unfold temp_dir in H. fold (eff_dir ostmp dir) in H.
+  destruct (temp_refused prefix); [discriminate|].
   assert (Hnil : forall nm hh, TempNil <> TempOk nm hh) by (intros; discriminate).
   destruct (temp_loop_fresh step view is_create good cand contract_ok contract_err _ _ _ _ _ _ _ _ _ _ _ _ _
               create_dir Hg Hc Hnil H) as [H1 [H2 [H3 [_ H5]]]].
